@@ -4,7 +4,7 @@
    (mirrors cifdoc.hpp / to_cif.hpp / the value-level rules of cif.hpp after the three repairs);
    Cif/Legacy.v keeps the snapshot's behaviour for the *_refuted_before_fix statements. *)
 From GV Require Import Cif.Quote Cif.Write Cif.Buf Cif.Lex Cif.Legacy Cif.QuoteProofs Cif.BufProofs
-  Cif.LexProofs Cif.LayoutProofs.
+  Cif.LexProofs Cif.LayoutProofs Cif.Sequence Cif.Tokens Cif.DocTokens.
 Local Open Scope Z_scope.
 
 (* ---- quote() / as_string(): the only places where value delimiters are chosen or removed *)
@@ -96,3 +96,51 @@ Theorem C01_layout_refuted_before_fix_loop :
   exists v cl, wf_class v = Some cl /\ start_ok true cl v = false /\ lex_value true (v ++ [32; 49; 10]) = LexErr.
 Proof. exact loop_layout_refuted_v0. Qed.
 Print Assumptions C01_layout_refuted_before_fix_loop.
+
+(* ---- from single values to the whole byte sequence: THE LOOP BODY ROUND TRIP.
+   For every number of columns, every column-width vector (all align_loops settings) and every list of
+   well-formed values (text fields and ';'-values included), the bytes write_out_loop emits for the rows are
+   read back - by repeated application of the parser's white-space rule and value rule, starting at the
+   beginning of a line - as exactly the list of values that was written, in order, with nothing left over. *)
+Theorem C01_loop_body_roundtrip : forall ncol cw vals,
+  Forall wfv vals ->
+  lex_values (S (length vals)) true (ops_bytes (loop_values_ops ncol cw vals 0%nat true ++ [OPut nl])) = (vals, []).
+Proof. exact loop_body_roundtrip. Qed.
+Print Assumptions C01_loop_body_roundtrip.
+
+(* the general bridge it rests on: ANY writer trace in which every value is placed where the value rule reads it
+   (LayoutProofs.placed) and separators are blanks/newlines/non-empty padding re-lexes to the values written *)
+Theorem C01_placed_trace_relexes : forall l b, Forall sep_ok l -> placed value_ok b l ->
+  forall fuel, (length (writes l) < fuel)%nat -> lex_values fuel b (ops_bytes l) = (writes l, []).
+Proof. exact placed_trace_relexes. Qed.
+Print Assumptions C01_placed_trace_relexes.
+
+(* non-vacuity: a 2-column loop with a ';'-value, a quoted value and a text field *)
+Example C01_loop_body_example :
+  lex_values 5 true (ops_bytes (loop_values_ops 2 [0; 0] [[59; 122]; [39; 97; 32; 98; 39]; [59; 116; 10; 59]; [49]] 0%nat true ++ [OPut nl]))
+  = ([[59; 122]; [39; 97; 32; 98; 39]; [59; 116; 10; 59]; [49]], []).
+Proof. vm_compute. reflexivity. Qed.
+
+(* ---- THE WHOLE DOCUMENT, every value of the writer options (prefer_pairs, compact, misuse_hash, align_pairs,
+   align_loops): the bytes written by write_cif_to_stream for ANY document - blocks (data_ / global_), pairs,
+   loops, save frames with their items, comments, erased items, loops without values - are cut by cif.hpp's
+   white-space, comment, tag, reserved-word and value rules into exactly the tokens of the document, in order:
+   every block/frame name, every tag and every value comes back unchanged, nothing is lost and nothing is added.
+   wf_doc asks what the writer takes for granted: names and tags are runs of printable non-blank characters (tags
+   start with '_'), values are of one of the five lexical classes (text fields without CR-LF), comments are
+   single '#' lines. *)
+Theorem C01_document_tokens : forall o d, wf_doc d -> lex_all true (write_cif o d) = Some (doc_tokens o d).
+Proof. exact write_cif_tokens. Qed.
+Print Assumptions C01_document_tokens.
+
+(* non-vacuity: a document with a pair, a 2 x 2 loop holding a text field and a ';'-value, and a save frame *)
+Example C01_document_example :
+  let d := [mkBlock [120] [Pair [95; 97] [49];
+                            Loop [[95; 98; 46; 120]; [95; 98; 46; 121]] [[59; 116; 10; 59]; [59; 122]; [50]; [39; 97; 32; 98; 39]];
+                            Frame [102] [Pair [95; 99] [51]]]] in
+  lex_all true (write_cif (mkOpts false false true 8 10) d) =
+  Some [TData [120]; TTag [95; 97]; TValue [49]; TLoop; TTag [95; 98; 46; 120]; TTag [95; 98; 46; 121];
+        TValue [59; 116; 10; 59]; TValue [59; 122]; TValue [50]; TValue [39; 97; 32; 98; 39];
+        TSave [102]; TTag [95; 99]; TValue [51]; TSave []].
+Proof. vm_compute. reflexivity. Qed.
+
